@@ -199,6 +199,11 @@ type kase struct {
 	DstType string `json:"dst_type,omitempty"` // Copy: message full name, or np:<kind>
 	DstRep  string `json:"dst_rep,omitempty"`  // gen | dyn | np
 	DstFill string `json:"dst_fill,omitempty"` // Copy: "" = empty destination, else spec name whose content pre-populates it
+	// overlapping copies (overlap.go): SrcRep / DstRep may then be "hooked"
+	Hook        string `json:"hook,omitempty"`  // dst-reset | src-reflect
+	Inner       string `json:"inner,omitempty"` // spec copied by the inner copy
+	InnerSrcRep string `json:"inner_src_rep,omitempty"`
+	InnerDstRep string `json:"inner_dst_rep,omitempty"`
 }
 
 type npBytes struct {
@@ -232,6 +237,9 @@ func (k kase) srcType() string {
 
 // expect: "copy" when the statement promises a copy, "refuse" when it promises an error.
 func (k kase) expect() string {
+	if k.Hook != "" {
+		return "overlap"
+	}
 	if isNP(k.Src) || (k.Op == "Copy" && (isNP(k.DstType) || k.DstType != k.srcType())) {
 		return "refuse"
 	}
@@ -240,6 +248,9 @@ func (k kase) expect() string {
 
 // pairing class, the part of the fingerprint that says which kinds of things met.
 func (k kase) pairing() string {
+	if k.Hook != "" {
+		return "overlap:" + k.SrcRep + "->" + k.DstRep + "@" + k.Hook
+	}
 	if k.Op == "Clone" {
 		if isNP(k.Src) {
 			return "nonproto"
@@ -262,7 +273,7 @@ func (k kase) pairing() string {
 }
 
 func (k kase) key() string {
-	return strings.Join([]string{k.Adapter, k.Op, k.Src, k.SrcRep, k.DstType, k.DstRep, k.DstFill}, "|")
+	return strings.Join([]string{k.Adapter, k.Op, k.Src, k.SrcRep, k.DstType, k.DstRep, k.DstFill, k.Hook, k.Inner, k.InnerSrcRep, k.InnerDstRep}, "|")
 }
 
 func (k kase) buildSrc() interface{} {
@@ -323,6 +334,9 @@ func short(b []byte) string {
 }
 
 func runCase(k kase) (o outcome) {
+	if k.Hook != "" {
+		return runOverlap(k)
+	}
 	defer func() {
 		if r := recover(); r != nil {
 			o.Internal = fmt.Sprintf("checker panic on %s: %v", k.key(), r)
@@ -474,6 +488,13 @@ func equalOnly(k kase) (ok bool) {
 
 func describe(k kase) string {
 	s := fmt.Sprintf("%s %s[%s]", k.Adapter, k.Src, k.SrcRep)
+	if k.Hook != "" {
+		fill := "empty"
+		if k.DstFill != "" {
+			fill = "pre-populated with " + k.DstFill
+		}
+		return fmt.Sprintf("%s Copy %s[%s] -> [%s] %s, with Copy %s[%s] -> [%s] running at %s", k.Adapter, k.Src, k.SrcRep, k.DstRep, fill, k.Inner, k.InnerSrcRep, k.InnerDstRep, k.Hook)
+	}
 	if k.Op == "Copy" {
 		fill := "empty"
 		if k.DstFill != "" {
@@ -529,6 +550,7 @@ func enumerate(adapters []string, thorough bool) []kase {
 				}
 			}
 		}
+		// 5. (enumerated last, see below) overlapping copies
 		// 4. Copy into a different message type
 		for _, s := range pool {
 			for _, r := range reps {
@@ -544,6 +566,7 @@ func enumerate(adapters []string, thorough bool) []kase {
 				}
 			}
 		}
+		out = append(out, enumerateOverlap(a, thorough)...)
 	}
 	return out
 }
